@@ -384,6 +384,53 @@ fn run_hide(ctx: &mut Ctx) {
             }
         }
     }
+    // every secret length 0..=300 (MD5 block and padding boundaries of `type ++ secret ++ rv` and of
+    // `secret ++ previous block`, buffers sized from either) on a one-, a three- and a
+    // thirteen-block value, three secrets per length
+    let sweep = [vgen::canonical(9), SAvp::Plain { attr: 7, val: SVal::Bytes(ramp(30)) }, SAvp::Plain { attr: 7, val: SVal::Bytes(ramp(200)) }];
+    for a in &sweep {
+        for sl in 0..=300usize {
+            if !ctx.mine() {
+                continue;
+            }
+            for lp in [0usize, 5] {
+                for ap in [0u32, 3, 4] {
+                    ctx.states += 1;
+                    ctx.transitions += 1;
+                    let h = HideCase {
+                        avp: a.clone(),
+                        secret_len: sl,
+                        rv: 1,
+                        lp_len: lp,
+                        ap,
+                    };
+                    let desc = || hide_json(&h);
+                    ctx.case(&desc, |ctx| check_hide(ctx, &h));
+                }
+            }
+        }
+    }
+    // hide is the identity on hidden AVPs of any size (also those too large to be written)
+    for n in [0usize, 1, 15, 17, 1008, 1016, 1017, 1018, 1024, 2000, 65_530] {
+        for attr in [7u16, 0x1234] {
+            if !ctx.mine() {
+                continue;
+            }
+            for (sl, lp) in [(6usize, 0usize), (0, 5)] {
+                ctx.states += 1;
+                ctx.transitions += 1;
+                let h = HideCase {
+                    avp: SAvp::Hidden { attr, value: ramp(n) },
+                    secret_len: sl,
+                    rv: 1,
+                    lp_len: lp,
+                    ap: 0,
+                };
+                let desc = || hide_json(&h);
+                ctx.case(&desc, |ctx| check_hide(ctx, &h));
+            }
+        }
+    }
     if ctx.prop == "C12" {
         // reveal half of C12 = the reveal space
         run_reveal(ctx);
@@ -525,6 +572,9 @@ fn check_reveal_inner(ctx: &mut Ctx, r: &RevealCase) {
         }
         return;
     }
+    // C13 states totality, the kind of an accepted result and three rejections; equality with the
+    // reference reveal (which values are accepted, and with what value) is C12's clause
+    let c13 = prop == "C13";
     match (&got, &want) {
         (Err(p), _) => {
             viol(ctx, format!("reveal-panics {} {}", p.0, crate::ctx::panic_class(&p.1)), format!("panic at {}: {}", p.0, p.1));
@@ -533,7 +583,7 @@ fn check_reveal_inner(ctx: &mut Ctx, r: &RevealCase) {
             ctx.guard("reveal-ok");
             ctx.guard("reveal-accepts");
             let s = bridge::avp_to_spec(a);
-            if s != *w {
+            if s != *w && !c13 {
                 viol(ctx, format!("reveal-value attr{}", r.attr.min(99)), format!("revealed {:?}, reference {:?}", short(&s), short(w)));
             }
             if s.attr() != r.attr || s.is_hidden() {
@@ -543,20 +593,38 @@ fn check_reveal_inner(ctx: &mut Ctx, r: &RevealCase) {
         (Ok(Err(_)), Err(_)) => {
             ctx.guard("reveal-rejects");
         }
-        (Ok(Ok(a)), Err(rej)) => viol(
-            ctx,
-            format!(
-                "reveal-accepts-specified-reject {}",
-                match rej {
-                    RevealRej::Empty => "empty",
-                    RevealRej::Misaligned => "misaligned",
-                    RevealRej::OriginalLength(_) => "original-length",
-                    RevealRej::Payload(_) => "payload",
-                }
-            ),
-            format!("revealed {:?}, reference rejects with {rej:?}", short(&bridge::avp_to_spec(a))),
-        ),
-        (Ok(Err(e)), Ok(w)) => viol(ctx, format!("reveal-rejects-specified-accept {}", format!("{e:?}").split('(').next().unwrap_or("")), format!("rejected with {e:?}, reference reveals {:?}", short(w))),
+        (Ok(Ok(a)), Err(rej)) => {
+            let named = match rej {
+                RevealRej::Empty | RevealRej::Misaligned => true,
+                // "decrypted lengths that do not fit inside the decrypted value"
+                RevealRej::OriginalLength(lo) => (*lo as usize) >= 6 && (*lo as usize - 6) > value.len().saturating_sub(2),
+                RevealRej::Payload(_) => false,
+            };
+            let s = bridge::avp_to_spec(a);
+            if c13 && (s.attr() != r.attr || s.is_hidden()) {
+                viol(ctx, "reveal-wrong-kind".into(), format!("announced attribute type {}, revealed {:?}", r.attr, short(&s)));
+            }
+            if !c13 || named {
+                viol(
+                    ctx,
+                    format!(
+                        "reveal-accepts-specified-reject {}",
+                        match rej {
+                            RevealRej::Empty => "empty",
+                            RevealRej::Misaligned => "misaligned",
+                            RevealRej::OriginalLength(_) => "original-length",
+                            RevealRej::Payload(_) => "payload",
+                        }
+                    ),
+                    format!("revealed {:?}, reference rejects with {rej:?}", short(&s)),
+                );
+            }
+        }
+        (Ok(Err(e)), Ok(w)) => {
+            if !c13 {
+                viol(ctx, format!("reveal-rejects-specified-accept {}", format!("{e:?}").split('(').next().unwrap_or("")), format!("rejected with {e:?}, reference reveals {:?}", short(w)));
+            }
+        }
     }
     // the three rejections the property names, independent of the reference
     if let Ok(Ok(_)) = &got {
